@@ -46,7 +46,7 @@ def sourceHashes : List (String × String) :=
    ("_delete", "3814292d45cb5cab"),
    ("slice", "943a0297b4418338"),
    ("slice0", "e3dfcf7fb18203eb"),
-   ("call: exec of an ordinary call", "14c35d1afee89425"),
+   ("call: exec of an ordinary call", "b26edecaafea9f99"),
    ("genValueRangeArray", "85bb294bc9e6c2d8"),
    ("genValueArray", "7423f6a50d5d826f"),
    ("genDestValue", "6d332c89aa45b5ab"),
